@@ -7,7 +7,7 @@ from . import common, coqterm, gen, execgen, c01
 from .c04 import fresh_schema_name
 from .coqterm import coq_list, coq_string, coq_option
 
-C14_FILES = ["Properties/C14.v"]
+C14_FILES = ["Properties/C14.v", "Model/SubscribeValidated.v"]
 
 
 def gen_sub_case(rng, s):
